@@ -39,7 +39,7 @@ Definition partition (parts : list (bytes * pparts)) (cntr : Z) (topic : bytes) 
            | None =>
                match available_ids ps with
                | [] => (p, cntr)
-               | a :: _ as av =>
+               | (a :: _) as av =>
                    (nth (Z.to_nat (cntr mod ulen av)) av a, (cntr + 1) mod 4294967296)
                end
            end
